@@ -24,7 +24,7 @@ Print Assumptions C02_gate_table_sound.
 (* The same for every keyword STRING, listed or not (a keyword added to a ServeHTTP is gated
    before it is ever listed), except the keywords instanceSelector serves before its gate. *)
 Theorem C02_gate_any_keyword : forall pkg kw meth,
-  In meth mutation_methods -> is_shortcut kw = false ->
+  In meth ["post"; "put"; "delete"] -> ~ In kw ["blobstore"] ->
   ~ In (pkg, kw, meth) proved_readonly ->
   gate mode_default false true true (RInst pkg kw) meth = Refuse.
 Proof. exact gate_any_keyword. Qed.
@@ -46,13 +46,13 @@ Print Assumptions C02_branching_allowed.
 (* Every other node-level request that is not GET/HEAD (note, log, commit, any unknown action) is
    refused on a committed node: for every registered node route, and for every action string. *)
 Theorem C02_node_routes_sound : forall meth a, In (meth, a) node_actions ->
-  ~ In meth ["get"; "head"] ->
-  gate mode_default false true true (RNode a) meth = if smem a node_branch_actions then Allow else Refuse.
+  ~ In meth ["get"; "head"] -> ~ In a ["branch"; "newversion"; "tag"] ->
+  gate mode_default false true true (RNode a) meth = Refuse.
 Proof. exact node_routes_sound. Qed.
 Print Assumptions C02_node_routes_sound.
 
 Theorem C02_node_any_action : forall a meth,
-  not_read meth = true -> smem a node_branch_actions = false ->
+  not_read meth = true -> ~ In a ["branch"; "newversion"; "tag"] ->
   gate mode_default false true true (RNode a) meth = Refuse.
 Proof. exact node_any_action. Qed.
 Print Assumptions C02_node_any_action.
